@@ -25,7 +25,86 @@ def cycleTo (unit : Bytes) (n : Nat) : Bytes :=
   let reps := n / unit.length
   ((List.replicate reps unit).flatten ++ unit.take (n % unit.length))
 
+/-! generated content (`~<k><seed>.<off>*<n>`, see harness/src/bin/c01.rs): `n` = LCG noise, `w` =
+words of a fixed dictionary separated by blanks, `m` = stretches of both in turn. Written twice
+(Rust and here); both sides only ever parse this notation, responses to cases that use it are
+digests. -/
+
+def lcg (x : UInt64) : UInt64 := x * 6364136223846793005 + 1442695040888963407
+
+def genByte (st : UInt64) : Byte := BitVec.ofNat 8 (st >>> 33).toNat
+
+/-- `n` noise bytes pushed onto `acc` (reversed) -/
+def genNoiseRev (seed : UInt64) (n : Nat) (acc : Bytes) : Bytes := Id.run do
+  let mut st := seed * 0x9E3779B97F4A7C15 + 1
+  let mut acc := acc
+  for _ in [0:n] do
+    st := lcg st
+    acc := genByte st :: acc
+  return acc
+
+/-- word `i` of the dictionary has `2 + i % 9` letters drawn from one LCG stream -/
+def genDict : Array Bytes := Id.run do
+  let mut st : UInt64 := 0x5eed
+  let mut d : Array Bytes := #[]
+  for i in [0:256] do
+    let mut w : Bytes := []
+    for _ in [0:2 + i % 9] do
+      st := lcg st
+      w := BitVec.ofNat 8 (97 + ((st >>> 33) % 26).toNat) :: w
+    d := d.push w   -- letters reversed: pushed onto a reversed accumulator as they are
+  return d
+
+/-- at least `n` bytes of words (whole words) pushed onto `acc` (reversed); returns the count -/
+partial def genWordsRev (dict : Array Bytes) (st : UInt64) (n : Nat) (have_ : Nat) (acc : Bytes) : Bytes × Nat :=
+  if have_ ≥ n then (acc, have_)
+  else
+    let st := lcg st
+    let w := dict[((st >>> 33) % 256).toNat]!
+    genWordsRev dict st n (have_ + w.length + 1) ((0x20 : Byte) :: (w ++ acc))
+
+/-- the first `n` bytes of stream `kind` / `seed` -/
+partial def genStream (kind : Char) (seed : UInt64) (n : Nat) : Option Bytes :=
+  if kind == 'n' then some (genNoiseRev seed n []).reverse
+  else if kind == 'w' then
+    let (acc, have_) := genWordsRev genDict (seed * 0x9E3779B97F4A7C15 + 7) n 0 []
+    some (acc.drop (have_ - n)).reverse
+  else if kind == 'm' then
+    let dict := genDict
+    let rec go (k : UInt64) (have_ : Nat) (acc : Bytes) : Bytes × Nat :=
+      if have_ ≥ n then (acc, have_)
+      else if k % 2 == 0 then go (k + 1) (have_ + 3000) (genNoiseRev (seed + k) 3000 acc)
+      else
+        let (a, h) := genWordsRev dict ((seed + k) * 0x9E3779B97F4A7C15 + 7) 5000 0 []
+        go (k + 1) (have_ + 5000) (a.drop (h - 5000) ++ acc)
+    let (acc, have_) := go 0 0 []
+    some (acc.drop (have_ - n)).reverse
+  else none
+
+def allDigits (s : String) : Bool := !s.isEmpty && s.all Char.isDigit
+
+/-- `<k><seed>.<off>*<n>` (the text after `~`) -/
+def parseGen (g : String) : Option Bytes :=
+  match g.toList with
+  | kind :: rest =>
+    match (String.ofList rest).splitOn "." with
+    | [seed, r] =>
+      match r.splitOn "*" with
+      | [off, n] =>
+        if allDigits seed ∧ allDigits off ∧ allDigits n then
+          match seed.toNat?, off.toNat?, n.toNat? with
+          | some seed, some off, some n =>
+            if seed < 2 ^ 64 ∧ off + n ≤ 2 ^ 28 then
+              (genStream kind seed.toUInt64 (off + n)).map (·.drop off)
+            else none
+          | _, _, _ => none
+        else none
+      | _ => none
+    | _ => none
+  | [] => none
+
 def parseSeg (seg : String) : Option Bytes :=
+  if seg.startsWith "~" then parseGen (seg.drop 1).toString else
   match seg.splitOn "*" with
   | [h] => parseHex h
   | [u, n] =>
@@ -36,7 +115,7 @@ def parseSeg (seg : String) : Option Bytes :=
 
 /-- request-side parser: plain hex, or `+`-separated segments. -/
 def parseD (s : String) : Option Bytes :=
-  if s.contains '*' ∨ s.contains '+' then
+  if s.contains '*' ∨ s.contains '+' ∨ s.contains '~' then
     ((s.splitOn "+").mapM parseSeg).map List.flatten
   else parseHex s
 
@@ -200,15 +279,20 @@ def outFile : Except Err File → String
   | .ok f => "ok " ++ hexC (serialize f)
   | .error e => errStr e
 
-abbrev St := Option Builder
+/-- the builder of the case and the compressor graph its request lines carried so far (the
+`#`-ops decode with it, so a container never has to be repeated on a line) -/
+structure St where
+  b : Option Builder := none
+  tab : Tab := []
 
-def stepResp (st : St) (cd : Codec) (op : Op) : St × String :=
-  match st with
-  | none => (none, "dead")
+def stepResp (st : St) (t : Tab) (op : Op) : St × String :=
+  let st := { st with tab := st.tab ++ t }
+  match st.b with
+  | none => ({ st with b := none }, "dead")
   | some b =>
-    match step cd b op with
-    | .ok b' => (some b', "ok")
-    | .error e => (none, errStr e)
+    match step (codecOf t) b op with
+    | .ok b' => ({ st with b := some b' }, "ok")
+    | .error e => ({ st with b := none }, errStr e)
 
 def rowsLine (f : File) : String :=
   match f.table with
@@ -217,52 +301,88 @@ def rowsLine (f : File) : String :=
     let rs := rows.map fun r => s!"{r.csize}:{r.dsize}:{hexC r.checksum}"
     s!"table hs={f.headerSize} n={rows.length} " ++ (if rs.isEmpty then "-" else ",".intercalate rs)
 
+/-! digests in the responses of the `#`-ops: length + FNV-1a 64 -/
+
+def fnv1a (b : Bytes) : UInt64 :=
+  b.foldl (fun h x => (h ^^^ x.toNat.toUInt64) * 1099511628211) 14695981039346656037
+
+def dig (b : Bytes) : String := "#" ++ toString b.length ++ ":" ++ hexFixed 16 (fnv1a b).toNat
+
+def digBytes : Except Err Bytes → String
+  | .ok b => "ok " ++ dig b
+  | .error e => errStr e
+
+/-- answer of a `#`-op for a serialised container (see `digest_views` in the harness) -/
+def digestViews (cd : Codec) (keys : Nat → Option Bytes) (bytes : Bytes) : String :=
+  let p := parse bytes
+  "ok c=" ++ dig bytes ++ " | dec " ++
+    digBytes (match p with | .ok f => decode cd keys f | .error e => .error e) ++ " | " ++
+    (match p with | .ok f => rowsLine f | .error e => errStr e)
+
+def outFileDigest (cd : Codec) : Except Err File → String
+  | .ok f => digestViews cd (fun _ => none) (serialize f)
+  | .error e => errStr e
+
 def outBytes : Except Err Bytes → String
   | .ok b => "ok " ++ hexC b
   | .error e => errStr e
 
 def handle (st : St) : List String → St × String
-  | ["begin"] => (some Builder.init, "ok")
+  | ["begin"] => ({ b := some Builder.init, tab := [] }, "ok")
   | ["mode", m] =>
     match modeOf m with
-    | some m => stepResp st (codecOf []) (.withCompression m)
+    | some m => stepResp st [] (.withCompression m)
     | none => (st, "bad-op")
   | ["cs", n] =>
     match n.toNat? with
-    | some n => stepResp st (codecOf []) (.withChunkSize n)
+    | some n => stepResp st [] (.withChunkSize n)
+    | none => (st, "bad-op")
+  | ["csv", n] =>
+    match n.toNat? with
+    | some n => stepResp st [] (.withChunkSizeChecked n)
     | none => (st, "bad-op")
   | ["enc", et, name, iv, key] =>
     match specOf et name iv key with
-    | some (s, k) => stepResp st (codecOf []) (.withEncryption s k)
+    | some (s, k) => stepResp st [] (.withEncryption s k)
     | none => (st, "bad-op")
-  | ["noenc"] => stepResp st (codecOf []) .withoutEncryption
+  | ["noenc"] => stepResp st [] .withoutEncryption
   | ["add", d, tab] =>
     match parseD d, parseTab tab with
-    | some d, some t => stepResp st (codecOf t) (.addData d)
+    | some d, some t => stepResp st t (.addData d)
     | _, _ => (st, "bad-op")
   | ["mixed", d, "none", tab] =>
     match parseD d, parseTab tab with
-    | some d, some t => stepResp st (codecOf t) (.addMixed d none)
+    | some d, some t => stepResp st t (.addMixed d none)
     | _, _ => (st, "bad-op")
   | ["mixed", d, et, name, iv, key, tab] =>
     match parseD d, specOf et name iv key, parseTab tab with
-    | some d, some e, some t => stepResp st (codecOf t) (.addMixed d (some e))
+    | some d, some e, some t => stepResp st t (.addMixed d (some e))
     | _, _, _ => (st, "bad-op")
   | ["encdata", d, et, name, iv, key, idx, tab] =>
     match parseD d, specOf et name iv key, idx.toNat?, parseTab tab with
-    | some d, some (s, k), some idx, some t => stepResp st (codecOf t) (.addEncrypted d s k idx)
+    | some d, some (s, k), some idx, some t => stepResp st t (.addEncrypted d s k idx)
     | _, _, _, _ => (st, "bad-op")
   | ["chunk", m, d, tab] =>
     match modeOf m, parseD d, parseTab tab with
-    | some m, some d, some t => stepResp st (codecOf t) (.addChunkNew d m)
+    | some m, some d, some t => stepResp st t (.addChunkNew d m)
     | _, _, _ => (st, "bad-op")
   | ["build"] =>
-    match st with
-    | none => (none, "dead")
+    match st.b with
+    | none => ({ st with b := none }, "dead")
     | some b =>
       match build Spec.Md5.md5 b with
-      | .ok f => (none, "ok " ++ hexC (serialize f))
-      | .error e => (none, errStr e)
+      | .ok f => ({ st with b := none }, "ok " ++ hexC (serialize f))
+      | .error e => ({ st with b := none }, errStr e)
+  | ["build#", keys, tab] =>
+    match parseKeys keys, parseTab tab with
+    | some ks, some t =>
+      match st.b with
+      | none => ({ st with b := none }, "dead")
+      | some b =>
+        match build Spec.Md5.md5 b with
+        | .ok f => ({ st with b := none }, digestViews (codecOf (st.tab ++ t)) (keysOf ks) (serialize f))
+        | .error e => ({ st with b := none }, errStr e)
+    | _, _ => (st, "bad-op")
   | ["dec", f, keys, tab] =>
     match parseD f, parseKeys keys, parseTab tab with
     | some f, some ks, some t =>
@@ -277,9 +397,18 @@ def handle (st : St) : List String → St × String
     match cs.toNat?, modeOf m, parseD d, parseTab tab with
     | some cs, some m, some d, some t => (st, outFile (compress (codecOf t) Spec.Md5.md5 d cs m))
     | _, _, _, _ => (st, "bad-op")
+  | ["compress#", cs, m, d, tab] =>
+    match cs.toNat?, modeOf m, parseD d, parseTab tab with
+    | some cs, some m, some d, some t =>
+      (st, outFileDigest (codecOf t) (compress (codecOf t) Spec.Md5.md5 d cs m))
+    | _, _, _, _ => (st, "bad-op")
   | ["single", m, d, tab] =>
     match modeOf m, parseD d, parseTab tab with
     | some m, some d, some t => (st, outFile (singleChunk (codecOf t) d m))
+    | _, _, _ => (st, "bad-op")
+  | ["single#", m, d, tab] =>
+    match modeOf m, parseD d, parseTab tab with
+    | some m, some d, some t => (st, outFileDigest (codecOf t) (singleChunk (codecOf t) d m))
     | _, _, _ => (st, "bad-op")
   | ["multi", fmt, items, tab] =>
     match parseItems items, parseTab tab with
@@ -301,7 +430,10 @@ def handle (st : St) : List String → St × String
       | .ok file => (st, rowsLine file)
       | .error e => (st, errStr e)
     | none => (st, "bad-op")
+  -- an oracle-only case (chunks of up to 16 MiB + 1 of generated content): the request names the
+  -- input for the harness and the replay, the model does not evaluate it; both sides answer this
+  | "big" :: _ => (st, "oracle-only")
   | _ => (st, "bad-op")
 
 def main : IO Unit := do
-  loopState (← IO.getStdin) (← IO.getStdout) handle (none : St)
+  loopState (← IO.getStdin) (← IO.getStdout) handle ({} : St)
